@@ -92,6 +92,11 @@ var c04Atoms = []c04Atom{
 	{Name: "receiver-only-value", Decls: []string{dS, "func (s S#) r#() uint64 {\n\treturn 1\n}"}, Kinds: "struct x method-receiver"},
 	{Name: "receiver-only-pointer", Decls: []string{dS, "func (s *S#) r#() uint64 {\n\treturn 2\n}"}, Kinds: "struct x method-receiver (no mention)"},
 	{Name: "interface-conversion", Suspect: true, Decls: []string{dI, dS, dSM, "func useI#(i I#) uint64 {\n\treturn i.M()\n}", "func u#() uint64 {\n\ts := S#{a: 1}\n\treturn useI#(s)\n}"}, Entry: "u#", Kinds: "method x interface-conversion"},
+	{Name: "interface-conversion-in-if-condition", Suspect: true, Decls: []string{dI, dS, dSM, "func useI#(i I#) uint64 {\n\treturn i.M()\n}", "func u#() bool {\n\ts := S#{a: 1}\n\tif useI#(s) == 1 {\n\t\treturn true\n\t}\n\treturn false\n}"}, Kinds: "method x interface-conversion (call inside a comparison)"},
+	{Name: "interface-conversion-shared-by-two-users", Suspect: true, Decls: []string{dI, dS, dSM, "func useI#(i I#) uint64 {\n\treturn i.M()\n}", "func u#() uint64 {\n\ts := S#{a: 1}\n\treturn useI#(s)\n}", "func v#() bool {\n\ts := S#{a: 2}\n\tif useI#(s) == 1 {\n\t\treturn true\n\t}\n\treturn false\n}"}, Kinds: "method x interface-conversion (definition emitted with another user)"},
+	{Name: "pointer-store-named-type", Suspect: true, Decls: []string{dN, "func u#(p *N#) {\n\t*p = 3\n}"}, Kinds: "named-type x store-type"},
+	{Name: "pointer-load-named-type", Suspect: true, Decls: []string{dN, "func u#(p *N#) uint64 {\n\treturn uint64(*p)\n}"}, Kinds: "named-type x load-type"},
+	{Name: "var-initialiser-struct", Suspect: true, Decls: []string{dS, "func u#(p *S#) {\n\tvar s = *p\n\t_ = s\n}"}, Kinds: "struct x var-initialiser-type"},
 	{Name: "self-recursion", Decls: []string{"func r#(n uint64) uint64 {\n\tif n == 0 {\n\t\treturn 0\n\t}\n\treturn r#(n - 1)\n}", "func u#() uint64 {\n\treturn r#(2)\n}"}, Entry: "u#", Kinds: "func x self-call"},
 	{Name: "self-recursion-method", Decls: []string{dS, "func (s *S#) rm#(n uint64) uint64 {\n\tif n == 0 {\n\t\treturn s.a\n\t}\n\treturn s.rm#(n - 1)\n}"}, Kinds: "method x self-call"},
 	{Name: "self-recursion-in-closure", Decls: []string{"func r#(n uint64) uint64 {\n\tf := func() uint64 {\n\t\treturn r#(n - 1)\n\t}\n\tif n == 0 {\n\t\treturn 0\n\t}\n\treturn f()\n}"}, Kinds: "func x self-call"},
